@@ -1,5 +1,59 @@
 // harness commands owned by the check of property C19 (see tools/props/C19.py)
-#[allow(unused_variables)]
+//
+//   numsnips <item>...      item = <bits|->:<hexsrc>
+//       ONE Vm for the whole line.  For every item: the global `x` of module "main" is set to
+//       Value::Number(f64::from_bits(bits)) (when bits are given), the global `r` is reset to nil,
+//       the snippet is interpreted.  Records per item:
+//         SNIP <i>
+//         D <hex of format!("{}", Value::Number(x))>          (only when bits are given)
+//         O <hex line>...                                      (print() calls)
+//         R ok <hex> | R err <Kind> + M <hex>...
+//         G n<bits> | G o<hex display> | G -                   (global `r` afterwards)
+//   numfmt <bits>...        host-side Display only:  D <bits> <hex text>
+use yarel::value::Value;
+use yarel::vm;
+
+fn emit_global(vm: &mut vm::Vm, out: &mut Vec<String>) {
+    match vm.global("main", "r") {
+        Some(Value::Number(n)) => out.push(format!("G n{}", n.to_bits())),
+        Some(Value::None) | None => out.push("G -".to_owned()),
+        Some(other) => out.push(format!("G o{}", crate::hex(format!("{}", other).as_bytes()))),
+    }
+}
+
+fn cmd_numsnips(args: &[&str], out: &mut Vec<String>) {
+    let mut vm = crate::new_vm();
+    for (i, a) in args.iter().enumerate() {
+        out.push(format!("SNIP {}", i));
+        let mut it = a.splitn(2, ':');
+        let bits = it.next().unwrap_or("-");
+        let src = crate::unhex_str(it.next().unwrap_or("-"));
+        if bits != "-" {
+            let b: u64 = bits.parse().expect("bits");
+            let v = Value::Number(f64::from_bits(b));
+            out.push(format!("D {}", crate::hex(format!("{}", v).as_bytes())));
+            vm.set_global("main", "x", v);
+        }
+        vm.set_global("main", "r", Value::None);
+        let r = vm::interpret(&mut vm, src, None);
+        crate::emit_result(out, &r);
+        emit_global(&mut vm, out);
+    }
+}
+
+fn cmd_numfmt(args: &[&str], out: &mut Vec<String>) {
+    for a in args {
+        let b: u64 = a.parse().expect("bits");
+        let v = Value::Number(f64::from_bits(b));
+        out.push(format!("D {} {}", b, crate::hex(format!("{}", v).as_bytes())));
+    }
+}
+
 pub fn dispatch(cmd: &str, args: &[&str], out: &mut Vec<String>) -> bool {
-    false
+    match cmd {
+        "numsnips" => cmd_numsnips(args, out),
+        "numfmt" => cmd_numfmt(args, out),
+        _ => return false,
+    }
+    true
 }
